@@ -67,6 +67,13 @@ func (r *Reader) ReadEntry() (*Entry, error) {
 			return r.parseEntryData(record.data)
 
 		case RecordTypeFirst:
+			// A first fragment carries at least the entry header; an empty one
+			// (whose checksum is valid: the CRC of no bytes is 0) is damage
+			if len(record.data) == 0 {
+				r.fragments = r.fragments[:0]
+				return nil, fmt.Errorf("%w: empty first fragment", ErrCorruptRecord)
+			}
+
 			// Start of a fragmented entry; an unfinished one in front of it is dropped
 			r.fragments = append(r.fragments[:0], record.data)
 			r.currType = record.data[0] // Save the operation type
